@@ -1,4 +1,5 @@
 import Gp.Lemmas.ReasmRep
+import Gp.Lemmas.ReasmAcct
 /-
   C09 completeness (offset space): nothing that was accepted is lost.  Coverage invariant through
   checkOverlap (six cases), handleBytes, sendToConnection; pages that carry `end` lie at the end of the
@@ -732,6 +733,15 @@ theorem assemble_complete (S : List UInt8) (i : Int) (hi : 0 ≤ i) (cfg : Cfg) 
     rw [hn0, hq0]; exact hc.cov hopen x hx hP
   rcases decideQueue_spec hI0 p.syn 1 sq (by omega) ⟨hatl.1, by omega⟩ hsynsq with ⟨hd1, hdq, hdn⟩ | ⟨hsyn, hns', hd⟩
   · -- no start in this call
+    have hcontra : p.syn = true → h0.nextSeq = -1 → False := by
+      intro hs hm
+      have hdq' : decideQueue I h0 p.syn 1 sq = ({ h0 with nextSeq := sq }, false) := by
+        unfold decideQueue
+        rw [if_pos (by rw [hm]; rfl), if_pos hs]
+      rw [hdq'] at hd1
+      have := congrArg Half.nextSeq hd1
+      simp only at this
+      omega
     generalize decideQueue I h0 p.syn 1 sq = d at ha hd1 hdq hdn
     obtain ⟨h1, queue⟩ := d
     simp only at hd1 hdq hdn ha
@@ -742,12 +752,169 @@ theorem assemble_complete (S : List UInt8) (i : Int) (hi : 0 ≤ i) (cfg : Cfg) 
     obtain ⟨hm1, hqt⟩ := r2 ho hm
     rcases hor with hor | hor
     · rw [hn0] at hm1; exact hor hm1
-    · -- a first SYN never takes this branch
-      have : decideQueue I h1 p.syn 1 sq = ({ h1 with nextSeq := sq }, false) := by
-        unfold decideQueue
-        rw [if_pos (by rw [hm1]; rfl), if_pos hor]
-      -- but the decision was to queue
-      sorry
-  · sorry
+    · exact hcontra hor hm1
+  · -- first SYN: the start is seen now
+    rw [hd] at ha
+    simp only at ha
+    have hsqv : sq = i + 1 := hsynsq hsyn
+    have hfe0 : (p.rst || p.fin) = false := by
+      cases hf : (p.rst || p.fin) with
+      | false => rfl
+      | true => have := hfesyn hf; rw [hsyn] at this; cases this
+    have hw1 : WInv S (i + 1) { h0 with nextSeq := sq } := {
+      ns := Or.inr (by simp only; omega)
+      sorted := hI0.queue.1
+      ok := hI0.queue.2.1
+      lower := fun _ q hq => by
+        have := (hI0.queue.2.1 q hq).1.len
+        simp only; omega
+      saved := Or.inl (by
+        rcases hI0.saved with hsv | ⟨hne, _⟩
+        · exact hsv
+        · exact absurd hns' hne) }
+    have hn00 : n = 0 := hcnt0' hns'
+    obtain ⟨r1, r2⟩ := tail_complete S (i + 1) hb cfg hcfg { h0 with nextSeq := sq } used false sq p.bytes p.ts p.syn
+      (p.rst || p.fin) p.fin keep P n o hopen0 hw1 (Or.inr ⟨rfl, hsyn, hfe0⟩) hat hfe hpfin hF0
+      (fun hc' => by cases hc') (fun _ => ⟨by simp only; omega, Int.le_refl _⟩)
+      (fun hm => by simp only at hm; omega) (fun _ => by simp only; omega)
+      (fun x hx hP => by
+        rcases hcov' x hx hP with h' | h'
+        · exact absurd hns' h'.1
+        · exact Or.inr h') ha
+    refine ⟨r1, fun ho _ hm => ?_⟩
+    have := (r2 ho hm).1
+    simp only at this
+    omega
+
+theorem CInv.hinv {S b P h n} (hc : CInv S b P h n) : HInv S b h := by
+  cases hcl : h.closed with
+  | true => exact Or.inl hcl
+  | false => exact Or.inr (hc.inv hcl)
+
+theorem newBytes_append (a b : List SG) : newBytes (a ++ b) = newBytes a ++ newBytes b := by
+  simp [newBytes]
+
+theorem HOp.Plain.ok {S : List UInt8} {i : Int} {op : HOp} (h : op.Plain S i) : op.OK S i := by
+  cases op with
+  | seg p acc keep cfg used => exact ⟨h.1, by have := h.2.1; omega⟩
+  | skipFlush _ _ => exact absurd h (by simp [HOp.Plain])
+  | flushClose _ _ _ _ _ => exact absurd h (by simp [HOp.Plain])
+  | flushAll _ _ => exact absurd h (by simp [HOp.Plain])
+
+/-- a history of accepted consistent segments without page limits and without flushes: nothing is lost, no gap is
+    announced, and once a SYN was processed the position is known -/
+theorem hrun_complete (S : List UInt8) (i : Int) (hi : 0 ≤ i) :
+    ∀ (ops : List HOp) (h : Half) (n : Nat) (P : Int → Prop), CInv S (i + 1) P h n → (∀ op ∈ ops, op.Plain S i) →
+      ∀ (h' : Half) (sgs : List SG), hrun I h ops = .ok (h', sgs) →
+        CInv S (i + 1) (fun x => P x ∨ ∃ op ∈ ops, op.carries x) h' (n + (newBytes sgs).length) ∧
+        (∀ g ∈ sgs, g.skip = 0) ∧
+        (h'.closed = false → (h.nextSeq ≠ -1 ∨ ∃ op ∈ ops, op.isSyn = true) → h'.nextSeq ≠ -1) ∧
+        (h.closed = true → h'.closed = true)
+  | [], h, n, P, hc, _, h', sgs, hr => by
+    simp only [hrun, Res.ok.injEq, Prod.mk.injEq] at hr
+    obtain ⟨rfl, rfl⟩ := hr
+    refine ⟨?_, by simp, ?_, fun hcl => hcl⟩
+    · simp only [newBytes, List.map_nil, List.flatten_nil, List.length_nil, Nat.add_zero]
+      exact hc.mono (fun x hx => by
+        rcases hx with hx | ⟨op, hop, _⟩
+        · exact hx
+        · simp at hop)
+    · intro _ hor
+      rcases hor with hor | ⟨op, hop, _⟩
+      · exact hor
+      · simp at hop
+  | op :: rest, h, n, P, hc, hpl, h', sgs, hr => by
+    have hop := hpl op (List.mem_cons_self ..)
+    cases op with
+    | skipFlush _ _ => exact absurd hop (by simp [HOp.Plain])
+    | flushClose _ _ _ _ _ => exact absurd hop (by simp [HOp.Plain])
+    | flushAll _ _ => exact absurd hop (by simp [HOp.Plain])
+    | seg p acc keep cfg used =>
+      obtain ⟨hseg, hacc, hc1, hc2, hrst⟩ := hop
+      subst hacc
+      simp only [hrun, hstep] at hr
+      split at hr
+      · rename_i o ho
+        split at hr
+        · rename_i h2 sgs2 hr2
+          simp only [Res.ok.injEq, Prod.mk.injEq] at hr
+          obtain ⟨rfl, rfl⟩ := hr
+          obtain ⟨s1, s2⟩ := assemble_complete S i hi cfg ⟨hc1, hc2⟩ h used p keep P n hc hseg hrst o ho
+          -- no gap is announced without a limit
+          obtain ⟨o', ho', _, hskip⟩ := assemble_spec S i hi cfg h used p 1 keep hc.hinv hseg (by omega)
+          rw [ho] at ho'
+          obtain rfl := Res.ok.inj ho'
+          have hclosedStep : h.closed = true → o.half.closed = true := by
+            intro hcl
+            have ac := assemble_acct I cfg h used p 1 keep o ho
+            rw [ac.closedF (ac.quiet hcl).1]; exact hcl
+          obtain ⟨r1, r2, r3, r4⟩ := hrun_complete S i hi rest o.half _ _ s1
+            (fun op' hm => hpl op' (List.mem_cons_of_mem _ hm)) h2 sgs2 hr2
+          refine ⟨?_, ?_, ?_, fun hcl => r4 (hclosedStep hcl)⟩
+          · rw [newBytes_append, List.length_append, ← Nat.add_assoc]
+            refine r1.mono ?_
+            intro x hx
+            rcases hx with hx | ⟨op', hop', hcar⟩
+            · exact Or.inl (Or.inl hx)
+            · rcases List.mem_cons.mp hop' with rfl | hop'
+              · exact Or.inl (Or.inr hcar)
+              · exact Or.inr ⟨op', hop', hcar⟩
+          · intro g hg
+            rcases List.mem_append.mp hg with hg | hg
+            · exact hskip ⟨hc1, hc2⟩ g hg
+            · exact r2 g hg
+          · intro hopen' hor
+            apply r3 hopen'
+            have hsplit : (h.nextSeq ≠ -1 ∨ p.syn = true) ∨ ∃ op' ∈ rest, op'.isSyn = true := by
+              rcases hor with hor | ⟨op', hop', hsy⟩
+              · exact Or.inl (Or.inl hor)
+              · rcases List.mem_cons.mp hop' with rfl | hop'
+                · exact Or.inl (Or.inr hsy)
+                · exact Or.inr ⟨op', hop', hsy⟩
+            rcases hsplit with hs | hs
+            · left
+              cases hoc : o.half.closed with
+              | false => exact s2 hoc hs
+              | true => have := r4 hoc; rw [hopen'] at this; cases this
+            · exact Or.inr hs
+        · cases hr
+        · cases hr
+      · cases hr
+      · cases hr
+
+/-- offset space: once the SYN and every byte of `S` were accepted, exactly |S| new bytes have been handed over -/
+theorem complete_ideal (S : List UInt8) (i : Int) (hi : 0 ≤ i) (ops : List HOp) (hpl : ∀ op ∈ ops, op.Plain S i)
+    (hsyn : ∃ op ∈ ops, op.isSyn = true)
+    (hall : ∀ o : Nat, o < S.length → ∃ op ∈ ops, op.carries (i + 1 + o))
+    (h' : Half) (sgs : List SG) (hr : hrun I {} ops = .ok (h', sgs)) :
+    (newBytes sgs).length = S.length ∧ ∀ g ∈ sgs, g.skip = 0 := by
+  have hc0 : CInv S (i + 1) (fun _ => False) ({} : Half) 0 :=
+    { closedAll := fun hc => by cases hc
+      inv := fun _ => inv_init S (i + 1) 0
+      fin := fun _ p hp => by simp at hp
+      cnt0 := fun _ _ => rfl
+      cnt := fun _ hn => absurd rfl hn
+      cov := fun _ _ _ hf => hf.elim }
+  obtain ⟨r1, r2, r3, _⟩ := hrun_complete S i hi ops {} 0 _ hc0 hpl h' sgs hr
+  refine ⟨?_, r2⟩
+  simp only [Nat.zero_add] at r1
+  cases hcl : h'.closed with
+  | true => exact r1.closedAll hcl
+  | false =>
+    have hns : h'.nextSeq ≠ -1 := r3 hcl (Or.inr hsyn)
+    have hI := r1.inv hcl
+    have hbnd := hI.ns.resolve_left hns
+    have hcnt := r1.cnt hcl hns
+    by_cases hend : h'.nextSeq = i + 1 + S.length
+    · omega
+    · exfalso
+      have hlt : (h'.nextSeq - (i + 1)).toNat < S.length := by omega
+      obtain ⟨op, hop, hcar⟩ := hall _ hlt
+      have hx : i + 1 + ((h'.nextSeq - (i + 1)).toNat : Int) = h'.nextSeq := by omega
+      rw [hx] at hcar
+      rcases r1.cov hcl h'.nextSeq hbnd.1 (Or.inr ⟨op, hop, hcar⟩) with ⟨_, hlt'⟩ | ⟨p, hp, hp1, _⟩
+      · omega
+      · have := hI.queue.2.2 hns p hp
+        omega
 
 end Gp.Reasm
